@@ -8,7 +8,13 @@ import (
 // disruptive action; an optional SecMarker M at any position; a logging-phase rule at the end.
 // Every subset of the rules may match.  The sequence of rules whose operator is evaluated, per
 // phase, must equal a reference interpreter of the documented semantics.
-func VpC08Flow() {
+func VpC08Flow() { vpC08Flow() }
+
+// VpC08FlowLate: the same check with fewer rules spread over all four rule phases, so that flow
+// actions sit in response-phase rules too (allow:request in phase 3 or 4, skipAfter over a phase end).
+func VpC08FlowLate() { vpC08Flow() }
+
+func vpC08Flow() {
 	k := vp.Param("K", 3)
 	np := vp.Param("PHASES", 2) // rules live in phases 1..np
 	actions := []string{"", "skip:1", "skip:2", "skipAfter:M", "allow", "allow:phase", "allow:request", "deny"}
